@@ -346,6 +346,11 @@ class EditStream(HTMLHandlerBase):
         """
         Delete a stream
         """
+        try:
+            self.check_csrf('streams', flask.request.args)
+        except (ValueError, CsrfFailureException) as err:
+            logging.info('CSRF failure: %s', err)
+            return jsonify({'error': 'CSRF failure'}, 401)
         models.db.session.delete(current_stream)
         models.db.session.commit()
         flask.flash(f'Deleted stream "{current_stream.title}"', 'success')
